@@ -251,6 +251,21 @@ def positions(existing):
     return out
 
 
+# names an implementation might treat specially: look-alikes of SQLite's internal names (also up to letter case),
+# LIKE / GLOB metacharacters, quotes, blanks, non-ASCII, single characters
+ADVERSARIAL = ["sqlite3stats", "SQLiteXStatus", "sqlite-stat9", "sqliteXsequence", "sqlite", "a_b%c", "x*y?z", "we[i]rd",
+               'quo"te', "apo'strophe", "two words", "T\u00e0bl\u00e9", "%", "_"]
+
+
+def adversarial(existing, rng=None, k=None):
+    """(position-tag, name) for the adversarial pool, minus names SQLite would refuse (equal to an existing one up to case)"""
+    low = {e.lower() for e in existing}
+    pool = [n for n in ADVERSARIAL if n.lower() not in low]
+    if rng is not None and k is not None and len(pool) > k:
+        pool = rng.sample(pool, k)
+    return [("adv", n) for n in pool]
+
+
 class Lib:
     def __init__(self, schema, stmts, cat):
         self.schema, self.stmts = schema, stmts
@@ -299,12 +314,15 @@ def enumerate_mutants(lib):
         for n, t in user.items():
             out.append(mutant("table-drop", label, n, "%s dropTable %s" % (label, hexs(n)),
                               omit=[t.stmt["i"]] + [s["i"] for s in lib.deps(label, n)]))
-        for pos, new in positions(list(tables) + list(views)):
+        out.append(mutant("table-add-analyze", label, "sqlite_stat1 (ANALYZE)", "-", add=["ANALYZE"]))
+        for pos, new in positions(list(tables) + list(views)) + adversarial(list(tables) + list(views)):
             out.append(mutant("table-add-" + pos, label, new,
                               "%s addTable %s 1 %s 0" % (label, hexs(new), col_txt(("id", "INTEGER", 0, None, 0))),
                               add=['CREATE TABLE %s ("id" INTEGER)' % q(new)]))
-        for n, t in user.items():
-            for pos, new in positions(list(tables) + list(views)):
+        for ti, (n, t) in enumerate(user.items()):
+            # every table is renamed to the three positions; the adversarial names are dealt round over the tables
+            adv = adversarial(list(tables) + list(views))
+            for pos, new in positions(list(tables) + list(views)) + [a for j, a in enumerate(adv) if j % len(user) == ti]:
                 omit, repl, pure = [], [(t.stmt["i"], retable(t, name=new))], True
                 for s in lib.deps(label, n):
                     ix = next((i for i in t.idx if i[0] == s["name"]), None) if s["type"] == "index" else None
@@ -319,11 +337,12 @@ def enumerate_mutants(lib):
         for n, s in views.items():
             out.append(mutant("view-drop", label, n, "%s dropView %s" % (label, hexs(n)),
                               omit=[s["i"]] + [d["i"] for d in lib.deps(label, n, ("trigger",))]))
-        for pos, new in positions(list(tables) + list(views)):
+        for pos, new in positions(list(tables) + list(views)) + adversarial(list(tables) + list(views)):
             out.append(mutant("view-add-" + pos, label, new, "%s addView %s" % (label, hexs(new)),
                               add=["CREATE VIEW %s AS SELECT 1 AS x" % q(new)]))
-        for n, s in views.items():
-            for pos, new in positions(list(tables) + list(views)):
+        for vi, (n, s) in enumerate(views.items()):
+            adv = adversarial(list(tables) + list(views))
+            for pos, new in positions(list(tables) + list(views)) + [a for j, a in enumerate(adv) if j % len(views) == vi]:
                 sql, k = re.subn(r'^(\s*CREATE\s+VIEW\s+)("[^"]+"|\[[^\]]+\]|`[^`]+`|[A-Za-z0-9_$]+)', lambda m: m.group(1) + q(new),
                                  s["sql"], count=1, flags=re.I)
                 if k != 1:
@@ -405,7 +424,8 @@ def enumerate_mutants(lib):
                     cols = [(x[0], x[1], x[2], x[3], len(pk) + 1) if x is c else x for x in t.cols]
                     col_mut("col-pk-add", "%s pk 0 -> %d" % (c[0], len(pk) + 1), cols, autoinc=False,
                             lean="%s updCol %s %s %s" % (label, hexs(n), hexs(c[0]), col_txt((c[0], c[1], c[2], c[3], len(pk) + 1))))
-            for pos, new in positions(cn):
+            tix = list(user).index(n)
+            for pos, new in positions(cn) + [a for j, a in enumerate(adversarial(cn)) if j % len(user) == tix]:
                 newc = (new, "INTEGER", 0, None, 0)
                 col_mut("col-add-" + pos, "+" + new, t.cols + [newc],
                         lean="%s addCol %s %s" % (label, hexs(n), col_txt(newc)))
@@ -461,7 +481,7 @@ def enumerate_mutants(lib):
                                 out.append(mutant(kind, label, "%s.%s" % (n, ix[0]),
                                                   "%s updIdx %s %s %s" % (label, hexs(n), hexs(ix[0]), idx_txt(ix2)),
                                                   repl=[(t.stmt["i"], retable(t, auto=[ix2 if a is ix else a for a in auto]))]))
-            for pos, new in positions(inames):
+            for pos, new in positions(inames) + [a for j, a in enumerate(adversarial(inames + list(tables) + list(views))) if j % len(user) == tix]:
                 c0 = t.cols[0][0]
                 ix = (new, 0, "c", 0, [(0, c0)])
                 out.append(mutant("index-add-" + pos, label, "%s.+%s" % (n, new),
@@ -511,7 +531,7 @@ def mutated_ddl(lib, m):
     return out + [a + ";" for a in m["add"]]
 
 
-RES = re.compile(r"^ok load=(\S+) pub=(\S+) int=(\S+) trigskip=(\d+) (minus .*)$")
+RES = re.compile(r"^ok load=(\S+) pub=(\S+) int=(\S+) trigskip=(\d+) wrap=(\S+) (minus .*)$")
 
 
 def run_schema(schema, select, ctx, extracted=None):
@@ -545,7 +565,7 @@ def run_schema(schema, select, ctx, extracted=None):
         mm = RES.match(o)
         parsed.append(mm)
         if mm:
-            mlines.append("c17.mut b %s %s" % ((m["lean"] if m else "-"), mm.group(5)))
+            mlines.append("c17.mut b %s %s" % ((m["lean"] if m else "-"), mm.group(6)))
     mshards = runner.shard(mlines[npre:], max(1, min(NCPU, 1 + len(mlines) // 100)))
     mres = runner.run_model([mlines[:npre] + sh for sh in mshards])
     mouts = []
@@ -571,7 +591,14 @@ def run_schema(schema, select, ctx, extracted=None):
                                        "model": "the mutated DDL should build (generator / harness problem)"})
             bump("generator-error:" + kind)
             continue
-        load, pub, intl, trigskip, delta = mm.groups()
+        load, pub, intl, trigskip, wrap, delta = mm.groups()
+        bump("wrappers:" + wrap.split(":")[0] + (":" + wrap.split(":")[1] if ":" in wrap else ""))
+        if wrap != "same":
+            # the model assumes the validator's query wrappers list every table / view / column / index that is there
+            res["divergences"].append({"input": "%s %s: %s" % (schema, kind, what),
+                                       "impl": "the validator's own listing differs from the independent reader's: " + wrap + " = " +
+                                               (unhex(wrap.split(":")[-1]) if wrap.startswith("DIFF") else ""),
+                                       "model": "master_list / table_info / index_list / index_info return everything sqlite_master and the PRAGMAs hold"})
         lean = mouts[mi] if mi < len(mouts) else "missing"
         mi += 1
         f = dict(x.split("=", 1) for x in lean.split(" ")[1:]) if lean.startswith("ok ") else {}
@@ -804,7 +831,7 @@ def tie(ctx):
             out, groups = [], {}
             for m in allm:
                 k = m["kind"]
-                if k.startswith(always) or k.endswith("-add-last") or k.endswith("-add-only"):
+                if k.startswith(always) or k.endswith(("-add-last", "-add-only", "-adv", "-analyze")):
                     out.append(m)
                 else:
                     fam = re.sub(r"-(first|between|last|add|drop|change|remove|case)$", "", k)
